@@ -47,7 +47,7 @@ Resolve(s, obsIdx, obsLen) ==
 ResolveBad(s, obsIdx, obsLen) ==
   s.maybe /\ ~(obsIdx = s.pidx /\ obsLen = s.len + s.pend) /\ ~(obsIdx = s.idx /\ obsLen = s.len)
 
-CInit == /\ l = 2 /\ log = <<>> /\ hmap = <<>> /\ hroot = D(NB) /\ hyps = <<>> /\ reopened = FALSE /\ viol = {}
+CInit == /\ l = 2 /\ log = <<>> /\ hmap = <<>> /\ hroot = TrieE /\ hyps = <<>> /\ reopened = FALSE /\ viol = {}
          /\ nst = <<N0, N0, N0>> /\ hmaps = <<>> /\ dumps = <<>> /\ nacked = 0 /\ lost = {} /\ blist = <<>>
 
 (* tags: every failure is reported under each property it falsifies *)
@@ -61,15 +61,21 @@ Agrees(v0, ds) == \A i \in 1..Len(ds) : (v0 + i - 1 < Len(log)) => log[v0 + i] =
 Extends(v0, ds) == v0 <= Len(log) /\ v0 + Len(ds) > Len(log)
 NewPart(v0, ds) == SubSeq(ds, Len(log) - v0 + 1, Len(ds))
 
+(* the hyper tree is kept in its incremental form (MC_Hyper: it is the canonical tree); in this
+   module the variable hroot holds that trie, hyps its root term per version and hmaps the pair
+   (map, trie) per version.  Expensive values are operator arguments, which TLC evaluates once
+   (an action-level LET is re-evaluated at every reference). *)
+MentionNew3(np, hm2, tr2, hr2) ==
+  /\ log' = log \o np
+  /\ hmap' = hm2 /\ hroot' = tr2
+  /\ hyps' = hyps \o [i \in 1..Len(np) |-> hr2]
+  /\ hmaps' = hmaps \o [i \in 1..Len(np) |-> [m |-> hm2, t |-> tr2]]
+MentionNew2(np, hm2, tr2) == MentionNew3(np, hm2, tr2, TRoot(tr2))
+MentionNew(np) == MentionNew2(np, ApplyBulkMap(hmap, np, Len(log)), TApplyBulk(hroot, np, Len(log)))
+
 Mention(v0, ds) ==
   IF Extends(v0, ds) /\ Agrees(v0, ds)
-  THEN LET np == NewPart(v0, ds)
-           hm2 == ApplyBulkMap(hmap, np, Len(log))
-           hr2 == HRoot(hm2) IN
-       /\ log' = log \o np
-       /\ hmap' = hm2 /\ hroot' = hr2
-       /\ hyps' = hyps \o [i \in 1..Len(np) |-> hr2]
-       /\ hmaps' = hmaps \o [i \in 1..Len(np) |-> hm2]
+  THEN MentionNew(NewPart(v0, ds))
   ELSE UNCHANGED <<log, hmap, hroot, hyps, hmaps>>
 
 MentionFails(props, n, v0, ds) ==
@@ -147,6 +153,40 @@ StepAck ==
                     \cup (IF v < Len(hyps') /\ Term(sn.hyper) # hyps'[v + 1]
                           THEN NTags({"C04", "C06"}, n, "acknowledged hyper digest is not the canonical root") ELSE {})
                   : i \in 1..Min(Len(Ev.snaps), m) }
+               \cup (IF ~nst[n].unknown /\ nst[n].len < v0 + m
+                     THEN NTags({"C07"}, n, "acknowledged before the insertion was persisted") ELSE {})
+  /\ UNCHANGED <<reopened, dumps, nst, blist>>
+
+(* acknowledgement of a large bulk: every returned version (vs) and event digest (es), and a
+   sample of the snapshots (field i = position in the bulk) for the tree digests *)
+StepAckBig ==
+  /\ Ev.a = "ackbig"
+  /\ LET n == Ev.n
+         m == Len(Ev.bulk)
+         ok == ~Ev.err /\ Len(Ev.vs) > 0
+         v0 == IF ok THEN Ev.vs[1] ELSE 0 IN
+     IF ~ok
+     THEN /\ lost' = lost \cup Range(Ev.bulk)
+          /\ viol' = viol \cup (IF "panic" \in DOMAIN Ev THEN NTags({"C05", "C11"}, n, "add panicked") ELSE {})
+          /\ UNCHANGED <<log, hmap, hroot, hyps, hmaps, nacked>>
+     ELSE /\ Mention(v0, Ev.bulk)
+          /\ nacked' = v0 + m
+          /\ lost' = lost
+          /\ viol' = viol \cup MentionFails({"C05", "C06"}, n, v0, Ev.bulk)
+               \cup (IF Len(Ev.vs) # m THEN NTags({"C05"}, n, "bulk of m events did not return m snapshots") ELSE {})
+               \cup (IF v0 < nacked THEN NTags({"C05"}, n, "version acknowledged twice") ELSE {})
+               \cup (IF v0 > nacked /\ \E v \in nacked..(v0 - 1) : (v < Len(log) /\ log[v + 1] \notin lost)
+                     THEN NTags({"C05"}, n, "versions skipped between acknowledgements") ELSE {})
+               \cup (IF \E i \in 1..Min(Len(Ev.vs), m) : Ev.vs[i] # v0 + i - 1
+                     THEN NTags({"C05"}, n, "bulk versions not consecutive in request order") ELSE {})
+               \cup (IF \E i \in 1..Min(Len(Ev.es), m) : Ev.es[i] # Ev.bulk[i]
+                     THEN NTags({"C05"}, n, "snapshot carries another event digest") ELSE {})
+               \cup UNION { LET sn == Ev.snaps[j] v == sn.v IN
+                    (IF v < Len(log') /\ Term(sn.hist) # Root(log', v)
+                          THEN NTags({"C04", "C06"}, n, "acknowledged history digest is not the canonical root") ELSE {})
+                    \cup (IF v < Len(hyps') /\ Term(sn.hyper) # hyps'[v + 1]
+                          THEN NTags({"C04", "C06"}, n, "acknowledged hyper digest is not the canonical root") ELSE {})
+                  : j \in 1..Len(Ev.snaps) }
                \cup (IF ~nst[n].unknown /\ nst[n].len < v0 + m
                      THEN NTags({"C07"}, n, "acknowledged before the insertion was persisted") ELSE {})
   /\ UNCHANGED <<reopened, dumps, nst, blist>>
@@ -253,11 +293,11 @@ StepNMember ==
      viol' = viol \cup
        (IF Ev.err
         THEN (IF "panic" \in DOMAIN Ev THEN NTags({"C10"}, n, "membership query failed internally (panic)") ELSE
-              IF nst[n].pend = 0 /\ InW(Ev) = 0 /\ ~nst[n].unknown /\ c1 <= Len(hmaps) /\ Ev.d \in DOMAIN (IF c1 > 0 THEN hmaps[c1] ELSE <<>>) /\ (Ev.latest \/ hmaps[c1][Ev.d] <= Ev.q)
+              IF nst[n].pend = 0 /\ InW(Ev) = 0 /\ ~nst[n].unknown /\ c1 <= Len(hmaps) /\ Ev.d \in DOMAIN (IF c1 > 0 THEN hmaps[c1].m ELSE <<>>) /\ (Ev.latest \/ hmaps[c1].m[Ev.d] <= Ev.q)
               THEN NTags({"C01", "C06"}, n, "query for an inserted event failed") ELSE {})
         ELSE IF c1 < 1 \/ c1 > Len(log) \/ ~ViewOKW(n, c1, InW(Ev))
              THEN NTags({"C05", "C10"}, n, "current version of the reply is not a state of this node")
-             ELSE Retag(MemberChecksOn(Ev, SubSeq(log, 1, c1), hmaps[c1], hyps[c1]), n))
+             ELSE Retag(MemberChecksWith(Ev, SubSeq(log, 1, c1), hmaps[c1].m, hyps[c1], TSearch(hmaps[c1].t, Ev.d)), n))
   /\ UNCHANGED <<log, hmap, hroot, hyps, hmaps, reopened, dumps, nacked, lost, nst, blist>>
 
 StepNIncr ==
@@ -335,7 +375,7 @@ StepBAdd ==
         ELSE (IF Ev.v # c1 THEN {Tag("C16", "next event after restore does not get version v+1")} ELSE {})
              \cup (IF c1 <= Len(log) /\ Term(Ev.hist) # Root(Append(SubSeq(log, 1, c1), Ev.d), c1)
                    THEN {Tag("C16", "history digest after restore is not the canonical root")} ELSE {})
-             \cup (IF c1 >= 1 /\ c1 <= Len(log) /\ Term(Ev.hyper) # HRoot(ApplyBulkMap(hmaps[c1], <<Ev.d>>, c1))
+             \cup (IF c1 >= 1 /\ c1 <= Len(log) /\ Term(Ev.hyper) # TRoot(TApplyBulk(hmaps[c1].t, <<Ev.d>>, c1))
                    THEN {Tag("C16", "hyper digest after restore is not the canonical root")} ELSE {}))
   /\ UNCHANGED <<log, hmap, hroot, hyps, hmaps, reopened, dumps, nacked, lost, nst, blist>>
 
@@ -361,7 +401,7 @@ StepRejoin ==
 
 StepCReset ==
   /\ Ev.a = "reset"
-  /\ log' = <<>> /\ hmap' = <<>> /\ hroot' = D(NB) /\ hyps' = <<>> /\ reopened' = FALSE
+  /\ log' = <<>> /\ hmap' = <<>> /\ hroot' = TrieE /\ hyps' = <<>> /\ reopened' = FALSE
   /\ nst' = <<N0, N0, N0>> /\ hmaps' = <<>> /\ dumps' = <<>> /\ nacked' = 0 /\ lost' = {} /\ blist' = <<>>
   /\ UNCHANGED viol
 
@@ -374,7 +414,7 @@ StepCInfo ==
 CNext ==
   /\ l <= Len(Trace)
   /\ l' = l + 1
-  /\ (StepPBegin \/ StepIndexReset \/ StepPEnd \/ StepAck \/ StepBoot \/ StepKill \/ StepExit \/ StepStart \/ StepStop \/ StepLoad \/ StepDump
+  /\ (StepPBegin \/ StepIndexReset \/ StepPEnd \/ StepAck \/ StepAckBig \/ StepBoot \/ StepKill \/ StepExit \/ StepStart \/ StepStop \/ StepLoad \/ StepDump
       \/ StepNMember \/ StepNIncr \/ StepRejoin \/ StepBackup \/ StepDelBackup \/ StepRestoreBackup \/ StepBStart \/ StepBAdd \/ StepBStop \/ StepHang \/ StepCReset \/ StepCInfo)
 
 CSpec == CInit /\ [][CNext]_cvars
